@@ -678,6 +678,13 @@ func (t *c03) dnsQuery(r *rand.Rand) {
 		t.viol("encode:DNSQuery:fields(views)", fmt.Sprintf("DecodeQuestion: %q type=%d class=%d off=%d/%d err=%v", q.Name, q.Type, q.Class, off, len(p), err), cs)
 		return
 	}
+	// every header view against the flags word that was encoded (RFC 1035 4.1.1: QR(1) Opcode(4) AA TC RD | RA Z(3) RCODE(4))
+	gotH := fmt.Sprintf("qr=%v opcode=%d aa=%v tc=%v rd=%v ra=%v z=%d rcode=%d counts=%d/%d/%d/%d", p.QR(), p.OpCode(), p.AA(), p.TC(), p.RD(), p.RA(), p.Z(), p.ResponseCode(), p.QDCount(), p.ANCount(), p.NSCount(), p.ARCount())
+	wantH := fmt.Sprintf("qr=%v opcode=%d aa=%v tc=%v rd=%v ra=%v z=%d rcode=%d counts=1/0/0/0", flags&0x8000 != 0, flags>>11&15, flags&0x400 != 0, flags&0x200 != 0, flags&0x100 != 0, flags&0x80 != 0, flags>>4&7, flags&15)
+	if gotH != wantH {
+		t.viol("encode:DNSQuery:fields(header views)", fmt.Sprintf("the header views read %s, encoded was %s", gotH, wantH), cs)
+		return
+	}
 	c.Class(fmt.Sprintf("dnsquery labels=%d len~%d", min(nl, 8), len(name)/32*32))
 	if len(name) == 253 {
 		c.Obs("dns_names_of_253", 1)
